@@ -322,7 +322,7 @@ Definition base_bp (n i : nat) : nat * nat := (n * 2 - i * 2, n * 2 - i * 2 + 1)
 Definition is_right_tok (g : grammar) (s : sym) : bool :=
   match s with T t => existsb (Nat.eqb t) (g_right g) | Eps => false end.
 
-(* the implementation swaps the pair once for every right-associative symbol of the operator's first set *)
+(* the pair is swapped (once) when the operator's first set contains a right-associative symbol *)
 Definition binding_powers (g : grammar) (fi : smap) (bs : list recursion) : list (nat * (nat * nat)) :=
   map (fun p =>
          let '(i, b) := p in
@@ -332,7 +332,7 @@ Definition binding_powers (g : grammar) (fi : smap) (bs : list recursion) : list
            match nth_error ops (S l) with
            | Some operand =>
              let k := length (filter (is_right_tok g) (get fi (rid_of operand))) in
-             (rid_of (rec_regex b), if Nat.even k then bp else (snd bp, fst bp))
+             (rid_of (rec_regex b), if Nat.eqb k 0 then bp else (snd bp, fst bp))
            | None => (rid_of (rec_regex b), bp)
            end
          | _ => (rid_of (rec_regex b), bp)
